@@ -30,7 +30,7 @@ def a(fn, kind, why, req=None, count=None):
 # ---- util/maven, util/pypi
 a("maven.(*String).ContainsProperty", "index-result", "i is the offset of \"${\", so i+2 <= len(str)", {"str[i + 2:]": ["i >= 0"]})
 a("maven.interpolating", "index-result", "i = Index(s, \"${\"), j = Index(s[i:], \"}\") >= 2 because s[i:] starts with \"${\"; after s = s[i:], 2 <= j < len(s)", {"s[i:]": ["i >= 0"], "s[2:j]": ["i >= 0", "j >= 0"], "s[:j + 1]": ["j >= 0"], "s[j + 1:]": ["j >= 0"]})
-a("pypi.ParseDependency", "trimmed", "s is v trimmed of blanks on both sides; nameEnd indexes a delimiter inside s, so s[nameEnd:] is non-empty and ends in a non-blank byte, hence non-empty after TrimLeft; end comes from IndexByte on the same s or is len(s); a constraint that starts with ( and ends with ) has length >= 2", {"s[:nameEnd]": ["nameEnd >= 0"], "s[1:end]": ["end >= 0"], "s[end + 1:]": ["end >= 0"], "s[:end]": ["len(s) > 0"]})
+a("pypi.ParseDependency", "trimmed", "s is v trimmed of blanks on both sides; nameEnd indexes a delimiter inside s, so s[nameEnd:] is non-empty and ends in a non-blank byte, hence non-empty after TrimLeft (re-checked on SSA: rule trim-chain); end comes from IndexByte on the same s or is len(s); a constraint that starts with ( and ends with ) has length >= 2", {"s[:nameEnd]": ["nameEnd >= 0"], "s[1:end]": ["end >= 0"], "s[end + 1:]": ["end >= 0"], "s[:end]": ["len(s) > 0"], "s[0]": ["ssa:trim-chain"]}, count={"s[0]": 1})
 a("pypi.CanonPackageName", "inlined", "strings.Builder.String inlined")
 a("pypi.SdistVersion", "loop-index", "i is a byte offset produced by ranging over nameVersion and nameVersion[i] is the one-byte rune '-'; the other sites are inlined strings.TrimSuffix", {"nameVersion[i + 1:]": ["r == '-'"]})
 a("pypi.ParseWheelName", "len-set", "name ends with the 4-byte suffix .whl; len(parts) is 5 or 6 after the early return; split is IndexFunc on buildTag or len(buildTag)", {"name[:len(name) - 4]": ["strings.HasSuffix(name, \".whl\")"], "buildTag[:split]": ["split != 0"], "parts[0]": ["!(len(parts) != 5 && len(parts) != 6)"], "parts[1]": ["!(len(parts) != 5 && len(parts) != 6)"], "parts[len(parts) - 3]": ["!(len(parts) != 5 && len(parts) != 6)"]})
